@@ -7,3 +7,144 @@ Local Open Scope Z_scope.
 Theorem C07_split_empty : forall lo hi step, hi < lo -> split_range lo hi step = Some [].
 Proof. exact split_empty. Qed.
 Print Assumptions C07_split_empty.
+
+(* ---------- encoding half (Numeric/ProofsEnc.v) ---------- *)
+From Verif Require Import Numeric.ProofsEnc.
+
+Theorem C07_f2i_range : forall b, in_u64 b = true -> in_int64 (f2i b) = true.
+Proof. exact f2i_range. Qed.
+Print Assumptions C07_f2i_range.
+
+Theorem C07_i2f_range : forall i, in_int64 i = true -> in_u64 (i2f i) = true.
+Proof. exact i2f_range. Qed.
+Print Assumptions C07_i2f_range.
+
+Theorem C07_i2f_f2i : forall b, in_u64 b = true -> i2f (f2i b) = b.
+Proof. exact i2f_f2i. Qed.
+Print Assumptions C07_i2f_f2i.
+
+Theorem C07_f2i_i2f : forall i, in_int64 i = true -> f2i (i2f i) = i.
+Proof. exact f2i_i2f. Qed.
+Print Assumptions C07_f2i_i2f.
+
+Theorem C07_f2i_order : forall a b,
+  in_u64 a = true -> in_u64 b = true -> is_nan a = false -> is_nan b = false ->
+  is_neg_zero a = false -> is_neg_zero b = false ->
+  (f2i a ?= f2i b) = f_compare a b.
+Proof. exact f2i_order. Qed.
+Print Assumptions C07_f2i_order.
+
+Theorem C07_f2i_order_exact : forall a b, in_u64 a = true -> in_u64 b = true ->
+  ((f2i a ?= f2i b) = f_compare a b <-> ~ ((a = 0 /\ b = two63) \/ (a = two63 /\ b = 0))).
+Proof. exact f2i_order_exact. Qed.
+Print Assumptions C07_f2i_order_exact.
+
+Theorem C07_f2i_neg_zero : f2i two63 = -1 /\ f2i 0 = 0 /\ f2i two63 = f2i 0 - 1
+  /\ f_compare two63 0 = Eq /\ (f2i two63 ?= f2i 0) = Lt.
+Proof. exact f2i_neg_zero. Qed.
+Print Assumptions C07_f2i_neg_zero.
+
+Theorem C07_encode_valid : forall x s t, encode x s = Some t ->
+  0 <= s <= 63 /\
+  valid_term t = Some s /\
+  Z.of_nat (length t) = nchars s + 1 /\
+  hd 0 t = shift_start + s /\
+  Forall (fun b => 0 <= b < 128) (tl t) /\
+  valid_bytes t = true.
+Proof. exact encode_valid. Qed.
+Print Assumptions C07_encode_valid.
+
+Theorem C07_encode_order : forall x y tx ty,
+  in_int64 x = true -> in_int64 y = true ->
+  encode x 0 = Some tx -> encode y 0 = Some ty ->
+  bcompare tx ty = (x ?= y).
+Proof. exact encode_order. Qed.
+Print Assumptions C07_encode_order.
+
+Theorem C07_encode_order_shift : forall x y s tx ty,
+  in_int64 x = true -> in_int64 y = true ->
+  encode x s = Some tx -> encode y s = Some ty ->
+  bcompare tx ty = (Z.shiftr x s ?= Z.shiftr y s).
+Proof. exact encode_order_shift. Qed.
+Print Assumptions C07_encode_order_shift.
+
+Theorem C07_decode_encode : forall x s t, in_int64 x = true -> 0 <= s < 63 ->
+  encode x s = Some t -> decode t = Some (Z.shiftl (Z.shiftr x s) s).
+Proof. exact decode_encode. Qed.
+Print Assumptions C07_decode_encode.
+
+Theorem C07_decode_encode_mod : forall x s t, in_int64 x = true -> 0 <= s < 63 ->
+  encode x s = Some t -> decode t = Some (x - x mod 2 ^ s).
+Proof. exact decode_encode_mod. Qed.
+Print Assumptions C07_decode_encode_mod.
+
+Theorem C07_decode_shift63 : forall x t,
+  encode x 63 = Some t -> decode t = None /\ valid_term t = Some 63.
+Proof. exact decode_shift63. Qed.
+Print Assumptions C07_decode_shift63.
+
+Theorem C07_numeric_sort_correct : forall a b ta tb,
+  in_u64 a = true -> in_u64 b = true -> is_nan a = false -> is_nan b = false ->
+  is_neg_zero a = false -> is_neg_zero b = false ->
+  encode (f2i a) 0 = Some ta -> encode (f2i b) 0 = Some tb ->
+  bcompare ta tb = f_compare a b.
+Proof. exact numeric_sort_correct. Qed.
+Print Assumptions C07_numeric_sort_correct.
+
+Theorem C07_numeric_sort_neg_zero :
+  exists tn tp, encode (f2i two63) 0 = Some tn /\ encode (f2i 0) 0 = Some tp /\
+                bcompare tn tp = Lt /\ f_compare two63 0 = Eq.
+Proof. exact numeric_sort_neg_zero. Qed.
+Print Assumptions C07_numeric_sort_neg_zero.
+
+(* ---------- link to Flocq's IEEE-754 semantics (Numeric/FlocqLink.v) ----------
+   Required without Import so that [is_nan] etc. keep meaning the Model's definitions below.
+   The real-number axioms reported here come only from Flocq's own validity proof inside
+   [b64_of_bits]; C07_f_compare_Bcompare_FF is the same fact over arbitrary validity proofs and
+   is closed under the global context. *)
+From Flocq Require IEEE754.Binary IEEE754.Bits.
+From Verif Require Numeric.FlocqLink.
+
+Theorem C07_f_compare_Bcompare_FF : forall a b Ha Hb,
+  in_u64 a = true -> in_u64 b = true -> Model.is_nan a = false -> Model.is_nan b = false ->
+  Binary.Bcompare 53 1024
+    (Binary.FF2B 53 1024 (Bits.binary_float_of_bits_aux 52 11 a) Ha)
+    (Binary.FF2B 53 1024 (Bits.binary_float_of_bits_aux 52 11 b) Hb)
+  = Some (f_compare a b).
+Proof. exact FlocqLink.f_compare_Bcompare_FF. Qed.
+Print Assumptions C07_f_compare_Bcompare_FF.
+
+Theorem C07_f_compare_Bcompare : forall a b,
+  in_u64 a = true -> in_u64 b = true -> Model.is_nan a = false -> Model.is_nan b = false ->
+  Binary.Bcompare 53 1024 (Bits.b64_of_bits a) (Bits.b64_of_bits b) = Some (f_compare a b).
+Proof. exact FlocqLink.f_compare_Bcompare. Qed.
+Print Assumptions C07_f_compare_Bcompare.
+
+Theorem C07_is_nan_b64 : forall a, in_u64 a = true ->
+  Binary.is_nan 53 1024 (Bits.b64_of_bits a) = Model.is_nan a.
+Proof. exact FlocqLink.is_nan_b64. Qed.
+Print Assumptions C07_is_nan_b64.
+
+Theorem C07_f2i_order_flocq : forall a b,
+  in_u64 a = true -> in_u64 b = true -> Model.is_nan a = false -> Model.is_nan b = false ->
+  is_neg_zero a = false -> is_neg_zero b = false ->
+  Binary.Bcompare 53 1024 (Bits.b64_of_bits a) (Bits.b64_of_bits b) = Some (f2i a ?= f2i b).
+Proof. exact FlocqLink.f2i_order_flocq. Qed.
+Print Assumptions C07_f2i_order_flocq.
+
+Theorem C07_numeric_sort_flocq : forall a b ta tb,
+  in_u64 a = true -> in_u64 b = true -> Model.is_nan a = false -> Model.is_nan b = false ->
+  is_neg_zero a = false -> is_neg_zero b = false ->
+  encode (f2i a) 0 = Some ta -> encode (f2i b) 0 = Some tb ->
+  Binary.Bcompare 53 1024 (Bits.b64_of_bits a) (Bits.b64_of_bits b) = Some (bcompare ta tb).
+Proof. exact FlocqLink.numeric_sort_flocq. Qed.
+Print Assumptions C07_numeric_sort_flocq.
+
+Theorem C07_f_compare_Rcompare : forall a b,
+  in_u64 a = true -> in_u64 b = true ->
+  Binary.is_finite 53 1024 (Bits.b64_of_bits a) = true ->
+  Binary.is_finite 53 1024 (Bits.b64_of_bits b) = true ->
+  Raux.Rcompare (Binary.B2R 53 1024 (Bits.b64_of_bits a)) (Binary.B2R 53 1024 (Bits.b64_of_bits b))
+  = f_compare a b.
+Proof. exact FlocqLink.f_compare_Rcompare. Qed.
+Print Assumptions C07_f_compare_Rcompare.
